@@ -3,9 +3,9 @@ import concurrent.futures, math, re
 import ps, oracle, C13
 
 LEVEL = "proof"
-THEOREMS = ["C17_forward_buffer_bounded"]
+THEOREMS = ["C17_forward_buffer_bounded", "C17_vector_capacity_bounded"]
 ASSUMPTIONS = [
-    "proved: the size of the forward prime buffer (for every value of the floating point estimate); measured (not proved): peak heap of counting / iterating via a replaced allocator - MemoryPool growth, bucket lists and Vector growth are not modelled in Coq (partial)",
+    "proved: the size of the forward prime buffer (for every value of the floating point estimate), and the capacity of primesieve's Vector <= 2 x the largest size / reservation requested, for every operation history; measured (not proved): peak heap of counting / iterating via a replaced allocator - MemoryPool growth and bucket lists are not modelled in Coq (partial)",
     "allocator overhead, thread stacks and libstdc++ internals are outside the measurement's model",
 ]
 EXPLANATION = "Coq theorem on the forward buffer size + correspondence of that size with the real IteratorData, and heap measurements (replaced operator new/delete, wrapped malloc): peak independent of the interval length over three orders of magnitude, bounded by an explicit function of sqrt(stop) and the sieve size, at most 2 KiB after clear(), zero after destruction"
@@ -45,6 +45,36 @@ def correspond(ctx):
                                "failing_input": {"start": c[0], "stop_hint": c[1], "buffer_entries": cap}})
         elif str(cap) != m.split()[0]:
             mismatches.append({"key": "fwd-buffer-model", "what": "iterator(%d, %d): buffer size %d, model %s" % (c[0], c[1], cap, m), "failing_input": None})
+    # 1b. Vector.hpp growth: random operation histories, real Vector<uint64_t> vs the extracted vec_run, and the proved bound
+    def vec_hist():
+        ops, size = [], 0
+        for _ in range(rng.between(1, 40)):
+            k = rng.below(10)
+            if k < 4: ops.append("p"); size += 1
+            elif k < 6: ops.append("r%d" % rng.below(3 * size + 8))
+            elif k < 8: n = rng.below(2 * size + 6); ops.append("z%d" % n); size = n
+            elif k < 9: n = rng.below(70); ops.append("a%d" % n); size += n
+            else: ops.append("c"); size = 0
+        return ops
+    hists = [["p"] * 70, ["r5", "p", "p", "p", "p", "p", "p", "r9", "z13", "z14", "a1", "c", "p"], ["z3", "r4", "r5", "z6", "a0", "a3"]]
+    hists += [vec_hist() for _ in range(150 if not ctx.thorough else 1500)]
+    rc, o, e = ps.run([kp], input="".join("VEC %s\n" % " ".join(h) for h in hists), timeout=300)
+    rcm, om, em = ps.run([model], input="".join("LEAF vec %s\n" % " ".join(h) for h in hists), timeout=300)
+    dist["vector_histories"] = len(hists); dist["vector_ops"] = sum(len(h) for h in hists)
+    for h, l, m in zip(hists, o.splitlines() + ["<no output>"] * len(hists), om.splitlines() + ["<no output>"] * len(hists)):
+        sigs.add(("vec", len(h) // 8, "c" in h, any(x[0] == "a" for x in h)))
+        if l != m:
+            # a disagreement: look for a state that breaks the proved bound in the implementation
+            high, bad = 0, None
+            size = 0
+            for op, st in zip(h, l.split()):
+                try: sz, cap = (int(x) for x in st.split(","))
+                except ValueError: break
+                dem = size + 1 if op == "p" else (0 if op == "c" else (size + int(op[1:]) if op[0] == "a" else int(op[1:])))
+                high = max(high, dem); size = sz
+                if cap > 2 * high or sz > cap: bad = {"ops": h[:h.index(op) + 1] if False else h, "size": sz, "capacity": cap, "largest_request": high}; break
+            mismatches.append({"key": "vector-growth", "what": "Vector<uint64_t> history %s: (size,capacity) per step %s, model %s%s" % (" ".join(h), l, m, "; capacity %d exceeds twice the largest request %d" % (bad["capacity"], bad["largest_request"]) if bad else ""),
+                               "failing_input": bad})
     # 2. heap measurements
     jobs = []
     for mag, kb in ((10 ** 9, 32), (10 ** 12, 32), (10 ** 14, 32)):
@@ -111,9 +141,9 @@ def correspond(ctx):
             if big[1] > 1.3 * small[1] + 65536:
                 mismatches.append({"key": "peak-shape", "what": "%s at %d: peak heap grows with the interval length: %s" % (key[0], key[1], [(a, b) for a, b, _ in lst]),
                                    "failing_input": {"jobs": [l[2] for l in lst], "peaks": [l[1] for l in lst]}})
-    ev = dist["capacity_cases"] + dist["measurements"]
+    ev = dist["capacity_cases"] + dist["measurements"] + dist["vector_histories"]
     return {"evaluations": ev, "distinct_nontrivial": len(sigs),
-            "rule": "forward buffer size for (start, stop_hint) around the cached-prime table, explicit far hints and random pairs (implementation vs model vs 1024); peak heap of count_primes / forward / backward iteration (without and with a stop_hint at the far end) at fixed magnitude with the span varied over three orders of magnitude; bytes held after clear() and after destruction for 5 histories. distinct = distinct (measurement kind, span class) / (capacity class)",
+            "rule": "Vector.hpp: random histories of push_back/reserve/resize/append/clear, real Vector<uint64_t> (size, capacity) after every operation vs the extracted vec_run; forward buffer size for (start, stop_hint) around the cached-prime table, explicit far hints and random pairs (implementation vs model vs 1024); peak heap of count_primes / forward / backward iteration (without and with a stop_hint at the far end) at fixed magnitude with the span varied over three orders of magnitude; bytes held after clear() and after destruction for 5 histories. distinct = distinct (measurement kind, span class) / (capacity class)",
             "samples": samples[:8], "mismatches": sorted(mismatches, key=lambda m: 0 if m.get("failing_input") else 1)[:20], "distribution": dist, "variants": ["default"]}
 
 
